@@ -429,3 +429,50 @@ def run_args_loud(P, rep, rule="R-ARGLOUD"):
                     rep.viol(rule, site, P.where(fn, t["line"]),
                              "the optional result of an argument's try_evaluate is not turned into an error: an argument that does not resolve is skipped, "
                              "and the partial then sees whatever outer binding has that name")
+
+
+# ---------------------------------------------------------------------------------------
+# R-BINDORDER: in `render .. for .. as ..` the per-iteration bindings are written after the key: value arguments
+
+def run_bind_order(P, rep, rule="R-BINDORDER"):
+    """Render::render_to fills one map per partial invocation.  The inserts that sit in a loop over `self.vars` are the
+    `key: value` arguments; the inserts outside that loop are the per-iteration bindings (`forloop`, the `as` variable).
+    A map insert overwrites, so the later writer wins on a name collision: no argument insert may be reachable from a
+    per-iteration insert within the lifetime of one map (i.e. without passing through `HashMap::new` again), otherwise a
+    `forloop: x` / `<as-name>: x` argument replaces the truthful forloop object / the current element."""
+    key = "<liquid_lib::stdlib::tags::render_tag::Render as liquid_core::runtime::renderable::Renderable>::render_to"
+    fns = P.by_key(key)
+    if len(fns) != 1:
+        rep.anchor_missing(rule, key)
+        return
+    fn = fns[0]
+    s = P.succ(fn)
+    news, ins = set(), []
+    for bi, t in P.calls(fn):
+        f = t.get("f")
+        if not f or "HashMap" not in f["name"]:
+            continue
+        last = f["id"].rsplit("::", 1)[1]
+        if last in ("new", "with_capacity", "default", "clear"):
+            news.add(bi)
+        elif last == "insert":
+            ins.append((bi, t))
+    if not news or not ins:
+        rep.anchor_missing(rule, key + " (no HashMap::new / insert: the argument map is built differently; re-derive)")
+        return
+    looped = [(bi, t) for bi, t in ins if bi in P.reach(fn, s[bi], stop=news)]
+    single = [(bi, t) for bi, t in ins if (bi, t) not in looped]
+    rep.count(rule + ".arg_inserts", len(looped))
+    rep.count(rule + ".binding_inserts", len(single))
+    bad = 0
+    for k, (bi, t) in enumerate(single):
+        after = P.reach(fn, s[bi], stop=news)
+        late = [b for b, _ in looped if b in after]
+        if late:
+            bad += 1
+            rep.viol(rule, "Render::render_to binding-insert#%d" % k, P.where(fn, t["line"]),
+                     "a per-iteration binding (forloop / the `as` variable) is inserted before the loop that inserts the key: value "
+                     "arguments into the same map: an argument of the same name now overwrites the forloop object / the current element")
+    if not bad:
+        rep.ok(rule, "Render::render_to", P.where(fn), "%d argument inserts (in the loop over self.vars), %d per-iteration inserts; no argument insert follows a per-iteration insert into the same map"
+               % (len(looped), len(single)))
